@@ -18,14 +18,14 @@ RULE = ("restricted numbers: every restriction list of 1 or 2 comparisons over {
         "None and lists, called directly as T(v) and through parse_args / parse_object; the six predefined types by name; "
         "restricted strings: the predefined and generated regexes x strings incl. prefixes and trailing newlines; "
         "registered types: ranges/timedeltas/Decimals/secrets/complex/UUID/bytes/bytearray/pathlib values incl. extremes, "
-        "serialised and read back through dump->parse_string, argv, a config file and a JSON dump, plus the "
-        "deserializers on mutated texts. A case is non-trivial unless it is a plain in-range int; distinct = distinct "
+        "serialised and read back through dump->parse_string, argv, a config file and a JSON dump, and handed to "
+        "parse_object as already typed values, plus the deserializers on mutated texts. A case is non-trivial unless it is a plain in-range int; distinct = distinct "
         "(case, observation)")
 TRUSTED = [
     "Coq 8.16.1 kernel + vm_compute",
     "tie/impl/c20_run.py (observation of the real jsonargparse.typing) and the Gallina printer in tie/props/c20.py",
-    "translator of _operators1/_operators2 and of the regexes (tie/props/c20.py translate), fail-closed, "
-    "regex translation validated per run against Python re",
+    "translators of _operators1/_operators2, of the regexes (incl. the two timedelta patterns) and of the module-level "
+    "register_type calls (tie/props/c20.py translate), fail-closed; regex translation exercised per run against Python re",
     "hand-written models coq/Model/C20Restricted.v, C20Registered.v, tied by per-case agreement evaluated inside Coq",
     "Python builtins int()/float() on text, str(timedelta), float(Decimal)/Decimal(float), complex, uuid, base64, pathlib, "
     "PyYAML/json scalar quoting (exercised by the correspondence only)",
@@ -35,10 +35,11 @@ ASSUMPTIONS = [
     "generators stay inside that domain",
     "text contains no non-ASCII decimal digits (Python's int()/float()/\\d accept them; the model's \\d is ASCII)",
     "ints converted to float are below 2^53 in magnitude",
-    "Decimal: float() is an external function; only its result being a binary double is used",
+    "Decimal: float() and repr() are external functions; only the result of float() being a binary double is used "
+    "(plus, for the pre-fix guard only, exactness on binary doubles of at most 15 digits); decimals are finite",
 ]
 EXHAUSTIVE = {"quick": False, "thorough": False}
-FINDING_CLASSES = {1: "decimal-via-float", 2: "yaml-load-nonstr-key"}
+FINDING_CLASSES = {1: "decimal-via-float"}
 
 OPS = [">", ">=", "<", "<=", "==", "!="]
 OPNAMES = {"gt": "OpGt", "ge": "OpGe", "lt": "OpLt", "le": "OpLe", "eq": "OpEq", "ne": "OpNe"}
@@ -208,6 +209,101 @@ def _string_constants(tree):
 REGEX_NAMES = ["NotEmptyStr", "Email", "re_range_stop", "re_range_start_stop", "re_range_start_stop_step"]
 
 
+def _timedelta_patterns(tree):
+    """The two patterns timedelta_deserializer hands to re.match: `pattern = r"..."` and, under
+    `if "day" in value:`, `pattern = r"..." + pattern`. Anything else fails closed."""
+    fn = [n for n in tree.body if isinstance(n, ast.FunctionDef) and n.name == "timedelta_deserializer"]
+    if len(fn) != 1:
+        raise TieBroken("timedelta_deserializer not found")
+    hms = days = None
+    uses_match = False
+    for node in ast.walk(fn[0]):
+        if isinstance(node, ast.Assign) and len(node.targets) == 1 and isinstance(node.targets[0], ast.Name) \
+                and node.targets[0].id == "pattern":
+            v = node.value
+            if isinstance(v, ast.Constant) and isinstance(v.value, str):
+                if hms is not None:
+                    raise TieBroken("timedelta_deserializer: more than one plain pattern")
+                hms = v.value
+            elif (isinstance(v, ast.BinOp) and isinstance(v.op, ast.Add) and isinstance(v.left, ast.Constant)
+                  and isinstance(v.left.value, str) and isinstance(v.right, ast.Name) and v.right.id == "pattern"):
+                if days is not None:
+                    raise TieBroken("timedelta_deserializer: more than one days pattern")
+                days = v.left.value
+            else:
+                raise TieBroken("timedelta_deserializer: pattern built in an unknown way: " + ast.dump(v))
+        if isinstance(node, ast.Call) and isinstance(node.func, ast.Attribute) and isinstance(node.func.value, ast.Name) \
+                and node.func.value.id == "re":
+            if node.func.attr != "match" or len(node.args) != 2 or node.keywords:
+                raise TieBroken("timedelta_deserializer does not use re.match(pattern, value)")
+            uses_match = True
+    if hms is None or days is None or not uses_match:
+        raise TieBroken("timedelta_deserializer: patterns not found")
+    return hms, days + hms
+
+
+# --- the registry: register_type / register_type_on_first_use calls at module level -------------------
+SER_NAMES = {"str": "SerStr", "float": "SerFloat", "decimal_serializer": "SerDecimal", "bytes_serializer": "SerBytes",
+             "range_serializer": "SerRange"}
+DES_NAMES = {"str": "DesStr", "decimal_deserializer": "DesDecimal", "timedelta_deserializer": "DesTimedelta",
+             "bytes_deserializer": "DesBytes", "bytearray_deserializer": "DesBytearray", "range_deserializer": "DesRange"}
+
+
+def translate_registry(tree):
+    rows = []
+
+    def one(call, subst):
+        if not call.args:
+            raise TieBroken("registration without a type: " + ast.unparse(call))
+        pos = list(call.args)
+        kw = {k.arg: k.value for k in call.keywords}
+        if None in kw:
+            raise TieBroken("registration with **kwargs: " + ast.unparse(call))
+        t = pos[0]
+        tname = t.value if isinstance(t, ast.Constant) and isinstance(t.value, str) else ast.unparse(subst.get(
+            t.id, t) if isinstance(t, ast.Name) else t)
+        ser = pos[1] if len(pos) > 1 else kw.get("serializer")
+        des = pos[2] if len(pos) > 2 else kw.get("deserializer")
+
+        def name(x):
+            if x is None or (isinstance(x, ast.Constant) and x.value is None):
+                return None
+            if isinstance(x, ast.Name):
+                return ast.unparse(subst.get(x.id, x))
+            return ast.unparse(x)
+
+        sn, dn = name(ser), name(des)
+        g_ser = "SerStr" if sn is None else SER_NAMES.get(sn, "(SerOther %s)" % g_str(sn))
+        g_des = "DesClass" if dn is None or dn == tname else DES_NAMES.get(dn, "(DesOther %s)" % g_str(dn))
+        rows.append((tname, g_ser, g_des))
+
+    def is_reg(n):
+        return (isinstance(n, ast.Expr) and isinstance(n.value, ast.Call) and isinstance(n.value.func, ast.Name)
+                and n.value.func.id in ("register_type", "register_type_on_first_use"))
+
+    for node in tree.body:
+        if is_reg(node):
+            one(node.value, {})
+        elif isinstance(node, ast.For) and any(is_reg(b) for b in node.body):
+            if not (isinstance(node.target, ast.Name) and isinstance(node.iter, (ast.List, ast.Tuple)) and not node.orelse
+                    and all(is_reg(b) for b in node.body)):
+                raise TieBroken("registration loop of an unknown shape: " + ast.unparse(node)[:120])
+            for elt in node.iter.elts:
+                for b in node.body:
+                    one(b.value, {node.target.id: elt})
+        elif isinstance(node, (ast.If, ast.Try, ast.With, ast.While)):
+            for sub in ast.walk(node):
+                if is_reg(sub) and not any(isinstance(a, ast.Constant) and isinstance(a.value, str) and
+                                           a.value.startswith("pydantic") for a in sub.value.args[:1]):
+                    raise TieBroken("conditional registration: " + ast.unparse(sub)[:120])
+    body = ";\n   ".join("(%s, (%s, %s))" % (g_str(t), s, d) for t, s, d in rows)
+    text = ("(* generated by tie/props/c20.py from jsonargparse/typing.py (module-level register_type /\n"
+            "   register_type_on_first_use calls, in order); do not edit *)\n"
+            "From JV Require Import Lib.Base Model.C20Base.\n"
+            "Definition registry : list (str * (serfn * desfn)) :=\n  [%s].\n" % body)
+    return text, rows
+
+
 def translate():
     tree, path = _typing_ast()
     text, rows = translate_operators(tree)
@@ -223,11 +319,16 @@ def translate():
             raise TieBroken("regex constant %s not found in %s" % (name, path))
         pats[name] = consts[name]
         lines.append("Definition rx_%s : pat := %s." % (name, translate_regex(consts[name])))
+    pats["td_hms"], pats["td_days"] = _timedelta_patterns(tree)
+    for name in ("td_hms", "td_days"):
+        lines.append("Definition rx_%s : pat := %s." % (name, translate_regex(pats[name])))
     _write_if_changed(os.path.join(gen, "C20Regexes.v"), "\n".join(lines) + "\n")
+    rtext, rrows = translate_registry(tree)
+    _write_if_changed(os.path.join(gen, "C20Registry.v"), rtext)
     # build the judge on its own first: it does not depend on Proofs/, so the correspondence can still
     # look for a failing input when a proof about the regenerated tables no longer compiles
     framework.build(["Corr/C20Judge.vo"])
-    return {"Gen/C20Operators.v": {"rows": rows}, "Gen/C20Regexes.v": pats}
+    return {"Gen/C20Operators.v": {"rows": rows}, "Gen/C20Regexes.v": pats, "Gen/C20Registry.v": {"rows": rrows}}
 
 
 def _write_if_changed(path, text):
@@ -293,7 +394,7 @@ def num_types(rng, tier):
             types.append((base, "and", [(">", pvf("2.0"))]))
         types.append((base, "or", []))
         types.append((base, "and", []))
-        n3 = 0 if tier == "quick" else 3000
+        n3 = 0 if tier == "quick" else 2000
         refs3 = refs + ([pvi(-3)] if base == "int" else [pvf("-0.25"), pvf("inf")])
         for _ in range(n3):
             types.append((base, rng.choice(["and", "or"]), [(rng.choice(OPS), rng.choice(refs3)) for _ in range(3)]))
@@ -311,7 +412,7 @@ def gen_num(rng, tier):
         cands = num_candidates(base, refs)
         must = cands[:3 * len(refs)] if len(restr) else cands[:2]
         rest = [c for c in cands if c not in must]
-        k = 9 if tier == "quick" else 40
+        k = 9 if tier == "quick" else 30
         pick = must + rng.sample(rest, min(k, len(rest)))
         for v in pick:
             cases.append({"kind": "num", "base": base, "join": join, "restr": [[s, r] for s, r in restr], "value": v})
@@ -448,7 +549,8 @@ def gen_decimal(rng, tier):
     pairs = [(1, -1), (5, -1), (25, -2), (3, 0), (1, 2), (125, -3), (-75, -2), (1, -3), (123456789012345678, -3), (0, 0),
              (1, 0), (-1, 0), (15, -1), (3, -1), (7, -1), (1, -2), (314159, -5), (2, -1), (4, -1), (6, -1), (8, -1),
              (9007199254740993, 0), (9007199254740992, 0), (1, 20), (1, 23), (12345678901234567890, 0), (1, -10),
-             (5, -10), (9765625, -10), (931322574615478515625, -30), (1, 300), (1, -300), (5, -324), (17976931348623157, 292),
+             (5, -10), (9765625, -10), (931322574615478515625, -30), (1, 300), (1, -300), (1, 400), (-1, 309), (1, -400), (17976931348623158, 292),
+             (9007199254740993, -3), (30000000000000004, -17), (1, -1), (2, -1), (3, -1), (100, -3), (1000, -1), (-5, 3), (5, -324), (17976931348623157, 292),
              (10000000000000001, -16), (1000000000000001, -15), (33, -2), (5, -2), (375, -3), (999999999999999, -3)]
     for _ in range(150 if tier == "quick" else 5000):
         k = rng.random()
@@ -623,14 +725,17 @@ def term(case, obs):
         if k == "tddes":
             return "(CTdDes %s %s)" % (g_pv(case["value"]), g_td(obs["back"]))
         if k == "secret":
-            return "(CSecret %s %s %s)" % (g_str(case["secret"]), g_str(obs["ser"]),
-                                          g_bool(obs["leaked"]))
+            return "(CSecret %s %s %s %s)" % (g_str(case["secret"]), g_str(obs["ser"]),
+                                             g_bool(obs["leaked"]), g_bool(obs["parsed_ok"]))
         if k == "decimal":
             d = "{| d_mant := %s; d_exp := %s |}" % (g_Z(int(case["mant"])), g_Z(case["exp"]))
-            y = "{| y_num := %s; y_exp := %s |}" % (g_Z(int(obs["dbl"][0])), g_Z(obs["dbl"][1]))
-            t = "{| d_mant := %s; d_exp := %s |}" % (g_Z(int(obs["text"][0])), g_Z(obs["text"][1]))
-            return "(CDecimal %s %s %s %s %s)" % (d, y, g_bool(obs["file_equal"] and obs["json_equal"]), t,
-                                                 g_bool(obs["argv_equal"]))
+            y = "None" if obs["dbl"] is None else g_opt("{| y_num := %s; y_exp := %s |}" % (
+                g_Z(int(obs["dbl"][0])), g_Z(obs["dbl"][1])))
+            t = "None" if obs["text"] is None else g_opt("{| d_mant := %s; d_exp := %s |}" % (
+                g_Z(int(obs["text"][0])), g_Z(obs["text"][1])))
+            return "(CDecimal %s %s %s %s %s %s)" % (d, y, t, g_bool(obs["ser_float"]),
+                                                    g_bool(obs["file_equal"] and obs["json_equal"]),
+                                                    g_bool(obs["argv_equal"]))
         if k == "builtin":
             return "(CBuiltin %s %s %s)" % (g_N(BUILTIN_KIND[case["type"]]), g_str(obs["ser"]), g_bool(obs["all_equal"]))
     except OutOfDomain:
@@ -690,16 +795,32 @@ def shrink(case):
 
 
 META = {
-    "level_text": "Theorems in coq/Properties/C20.v: C20_restricted_exact / _reject / _idempotent / _parse — for every restriction "
-                  "list, join and base type and every Python value, T(v) is accepted with value b iff v converts to the base "
-                  "type as b and b satisfies the comparisons (operator table regenerated from jsonargparse/typing.py, "
-                  "C20_operator_table), a second cast changes nothing, and the parse path agrees; C20_restricted_string_exact "
-                  "(regex matcher proved sound and complete against the denotational language, re.match = prefix match); "
-                  "C20_range_roundtrip and C20_timedelta_roundtrip for ALL ranges / timedeltas over Z; "
-                  "C20_secret_never_dumped; C20_decimal_via_float_refuted (open finding). complex, UUID, bytes, bytearray and "
-                  "pathlib round trips are Python builtins: exercised by the correspondence only.",
-    "level_note": "Trusted: Coq kernel/VM; the hand-written models' faithfulness outside the generated cases; the translators; "
-                  "Python's int()/float() text grammars and float arithmetic (fixed-point 10^-6 domain). No axioms.",
-    "technique": "Rocq proofs (reflection of boolean model against a Prop spec, list/regex induction, lia with div/mod) + "
-                 "translated operator table and regexes + correspondence evaluated in Coq",
+    "level_text": "Theorems in coq/Properties/C20.v, all over the whole modelled space. Restricted numbers: C20_restricted_exact / "
+                  "_reject / _idempotent / _parse — for EVERY restriction list, join and base type and every Python value, T(v) is "
+                  "accepted with value b iff v converts to the base type as b (bool never, float to int only when integral, text "
+                  "when it is a numeral) and b satisfies the comparisons joined by and/or; a second cast changes nothing; the "
+                  "parser path (loaded value, retry with the original text) agrees; C20_operator_table: the operator table "
+                  "regenerated from jsonargparse/typing.py denotes the six comparisons. Restricted strings: "
+                  "C20_restricted_string_exact (derivative matcher proved sound and complete for the denotational language; "
+                  "re.match = prefix match, `$` allows one final newline). Registered types: C20_registry (the module-level "
+                  "register_type calls, regenerated from the source, bind each type to the modelled serializer/deserializer pair); "
+                  "C20_range_roundtrip for ALL ranges over Z (empty ones included) and C20_range_regexes (the three patterns of "
+                  "the source accept exactly what the model's scanner accepts, for every string); C20_timedelta_roundtrip for ALL "
+                  "representable timedeltas (negative, sub-second) and C20_timedelta_regexes (likewise for the two patterns of "
+                  "timedelta_deserializer under re.match); C20_secret_never_dumped; Decimal: "
+                  "C20_decimal_via_float_refuted (registered with serializer float the file round trip of Decimal('0.1') fails "
+                  "whatever float() returns: the open finding), C20_decimal_hybrid_roundtrip (with "
+                  "fixes/C20-decimal-via-float.patch EVERY finite decimal round-trips on every channel) and "
+                  "C20_decimal_guarded_roundtrip (either registration inside the judge's guard). Only exercised by the "
+                  "correspondence: complex, UUID, bytes, bytearray and pathlib round trips (Python builtins), the yaml/json "
+                  "quoting of the serialised texts on the four channels (dump->parse_string, argv, config file, json) plus the "
+                  "pass-through of an already typed value, that no dump/save/str/repr shows a secret.",
+    "level_note": "Trusted: Coq kernel/VM; faithfulness of the hand-written models outside the generated cases; the AST translators "
+                  "(operator table, regexes, registry; fail closed); Python's int()/float() text grammars (modelled, tied per "
+                  "case) and double arithmetic (floats are fixed-point multiples of 10^-6 in the model); float()/repr() of a "
+                  "Decimal are external functions (only 'the result is a binary double' is used; for the pre-fix guard their "
+                  "exactness on 15-digit binary doubles is a stated hypothesis, float_faithful). No axioms.",
+    "technique": "Rocq proofs (reflection of the boolean model against a Prop spec, list/regex induction, Brzozowski derivatives, "
+                 "lia with div/mod) + operator table, regexes and registry translated from the source on every run + "
+                 "correspondence evaluated inside Coq (model agreement, guard class, spec agreement per case)",
 }
